@@ -89,6 +89,15 @@ def _all():
         for b in inf:
             yield {"fam": "margin", "L": a, "R": b}
             yield {"fam": "margin", "L": a + [[{"x": 1}, 5]], "R": b}
+    # terms without variables are either trivially true or make their side infeasible
+    vf_true, vf_false = [{}, 1], [{}, -1]
+    small = [[], [[{"x": 1}, 1]], [[{"y": 1}, 5], [{"x": -1}, 0]], [[{"x": 1}, 0], [{"x": -1}, -2]]]
+    for a in small:
+        for b in small:
+            for la in ([], [vf_true], [vf_false]):
+                for lb in ([], [vf_true], [vf_false]):
+                    if la or lb:
+                        yield {"fam": "margin", "L": la + a, "R": b + lb}
     # margins: the right side is a term of the left side tightened / loosened by a small amount (tolerance handling)
     for L in L2:
         for t in L:
